@@ -78,7 +78,9 @@ Verdict prop(Tape& t, Run& run) {
 }
 
 void deterministic(Run& run, const std::function<void(const std::vector<uint8_t>&)>& feed) {
-	enumerateFileCases(run, feed, run.args.tier == "thorough" ? 8 : 3);
+	const bool th = run.args.tier == "thorough";
+	enumerateFileCases(run, feed, th ? 8 : 3);
+	enumerateSweep(run, feed, th ? 24 : 8, th ? 32 : 24, th ? 8 : 3);
 }
 
 } // namespace
